@@ -271,7 +271,7 @@ fn oracle_inner(c: &Case, ctx: &mut Ctx, run: &mut Run, trace: &mut Vec<String>)
 	let mut obs: std::collections::BTreeSet<&'static str> = std::collections::BTreeSet::new();
 	// X's off-node wallet (fee inputs of anchor-type HTLC transactions) and the blocks before the cheat
 	let fund = stale.wallet_funding_tx(4);
-	let h0 = run.sim.height_of(v);
+	let h0 = run.sim.c06_height_of(v);
 	run.mine(&mut stale, vec![fund], true);
 	if c.advance > 0 {
 		for _ in 0..c.advance {
@@ -284,7 +284,7 @@ fn oracle_inner(c: &Case, ctx: &mut Ctx, run: &mut Run, trace: &mut Vec<String>)
 	ctx.label_if(v_closed_first, "v-force-closed-before-cheat");
 
 	// X confirms its revoked commitment
-	let hb = run.sim.height_of(v);
+	let hb = run.sim.c06_height_of(v);
 	run.mine(&mut stale, vec![tk_tx.clone()], c.tk_deliver);
 	let tk_height = run.sim.chain.height();
 	if !run.sim.chain.confirmed.contains_key(&tk.txid) {
@@ -302,7 +302,7 @@ fn oracle_inner(c: &Case, ctx: &mut Ctx, run: &mut Run, trace: &mut Vec<String>)
 	let mut styles = std::collections::BTreeSet::new();
 	styles.insert(c.v_style % 11);
 	for st in c.steps.iter() {
-		let hb = run.sim.height_of(v);
+		let hb = run.sim.c06_height_of(v);
 		let since = run.sim.chain.height() - tk_height;
 		match st {
 			Step::Block { x_mask, v_sel, v_mask, x_first, deliver } => {
@@ -368,7 +368,7 @@ fn oracle_inner(c: &Case, ctx: &mut Ctx, run: &mut Run, trace: &mut Vec<String>)
 		jo.scan(&run.sim, hb)?;
 		// the ChainMonitor persists a monitor with pending claims after every chain notification (and the
 		// restart writes the reloaded one); `rebroadcast_pending_claims` and estimator changes persist nothing
-		if run.sim.height_of(v) != hb || matches!(st, Step::Reload { .. }) {
+		if run.sim.c06_height_of(v) != hb || matches!(st, Step::Reload { .. }) {
 			jo.mark_durable();
 		}
 		if let Some(l) = jo.observe_balances(&run.sim) {
@@ -382,7 +382,7 @@ fn oracle_inner(c: &Case, ctx: &mut Ctx, run: &mut Run, trace: &mut Vec<String>)
 	// ---- end game: X stops; everything V has broadcast gets mined (the property presumes V's claims can
 	// confirm), well before X's CSV on the contested outputs matures ----
 	for _ in 0..40 {
-		let hb = run.sim.height_of(v);
+		let hb = run.sim.c06_height_of(v);
 		run.deliver_all();
 		jo.scan(&run.sim, hb)?;
 		jo.mark_durable();
@@ -394,7 +394,7 @@ fn oracle_inner(c: &Case, ctx: &mut Ctx, run: &mut Run, trace: &mut Vec<String>)
 		if cands.is_empty() && !open {
 			break;
 		}
-		let hb = run.sim.height_of(v);
+		let hb = run.sim.c06_height_of(v);
 		run.mine(&mut stale, cands, true);
 		jo.scan(&run.sim, hb)?;
 		jo.mark_durable();
@@ -407,7 +407,7 @@ fn oracle_inner(c: &Case, ctx: &mut Ctx, run: &mut Run, trace: &mut Vec<String>)
 		return Ok(None);
 	}
 	for _ in 0..(ANTI_REORG_DELAY + 2) {
-		let hb = run.sim.height_of(v);
+		let hb = run.sim.c06_height_of(v);
 		run.mine(&mut stale, vec![], true);
 		jo.scan(&run.sim, hb)?;
 		if let Some(l) = jo.observe_balances(&run.sim) {
@@ -415,7 +415,7 @@ fn oracle_inner(c: &Case, ctx: &mut Ctx, run: &mut Run, trace: &mut Vec<String>)
 		}
 	}
 	run.sim.c06_monitor_events(v);
-	jo.scan(&run.sim, run.sim.height_of(v))?;
+	jo.scan(&run.sim, run.sim.c06_height_of(v))?;
 	jo.finish(&run.sim)?;
 	if jo.balances_left(&run.sim) {
 		obs.insert("obs:balances-not-empty-at-end");
